@@ -50,6 +50,8 @@
 #undef pthread_cond_init
 #undef pthread_cond_wait
 #undef pthread_cond_signal
+#undef pthread_cond_broadcast
+#undef pthread_mutex_trylock
 #undef pthread_cond_destroy
 #undef pthread_create
 #undef pthread_join
